@@ -452,7 +452,7 @@ func (x *Exec) wfAstFieldPlain(st *State, key, ref string, val Term) {
 		st.assume(sOr(sEq(val.S, "nilIface"), sAnd("(ProperStmt "+val.S+")", sNot(sEq("(itag "+val.S+")", "K_BlockStmt")))))
 		// Go grammar: SimpleStmt = ExpressionStmt | SendStmt | IncDecStmt | Assignment | ShortVarDecl (an empty one is absent)
 		st.assume(sOr(sEq(val.S, "nilIface"), sEq("(itag "+val.S+")", "K_ExprStmt"), sEq("(itag "+val.S+")", "K_SendStmt"), sEq("(itag "+val.S+")", "K_IncDecStmt"), sEq("(itag "+val.S+")", "K_AssignStmt")))
-		if key != "ast.IfStmt.Init" && key != "ast.TypeSwitchStmt.Assign" {
+		if key != "ast.IfStmt.Init" && key != "ast.TypeSwitchStmt.Assign" && !x.unit.Spec.reveals("pre-pass0") {
 			// A-pass0: pass 0 hoisted every `:=` initialiser of a for/switch/type-switch out of the statement
 			// (and Go's grammar forbids `:=` in a post statement)
 			x.assumed["A-pass0: for/switch/type-switch initialisers reaching pass 2 are not short variable declarations (pass 0 hoisted them)"] = true
@@ -713,4 +713,17 @@ func (en *Engine) loadPreludes() error {
 		en.preludes[n] = string(b)
 	}
 	return nil
+}
+
+// reveals reports whether the unit's contract lists the given reveal flag.
+func (u *UnitSpec) reveals(flag string) bool {
+	if u == nil {
+		return false
+	}
+	for _, r := range u.Reveal {
+		if r == flag {
+			return true
+		}
+	}
+	return false
 }
